@@ -84,7 +84,8 @@ def cases(ctx):
     ctx.exhaustive["type-table-and-scale-cases"] = count
     for i in range(ctx.pick(400, 20000) // ctx.shard_count):
         version = [None, *VERSIONS][i % 6]
-        yield {"version": version, "steps": histories.rich_history(rng, version, rng.choice([20, 60, 150]))}
+        yield histories.with_reply_faults(rng, {"version": version,
+                                                "steps": histories.rich_history(rng, version, rng.choice([20, 60, 150]))})
     for i in range(ctx.pick(600, 24000) // ctx.shard_count):
         version = [None, *VERSIONS][i % 6]
         gen = histories.HistoryGen(rng, version)
